@@ -1,6 +1,7 @@
 package props
 
 import (
+	"fmt"
 	"go/token"
 	"strings"
 
@@ -141,5 +142,118 @@ func c20FailingCaveat(c *fw.Ctx) {
 	}
 	if n == 0 {
 		c.Undecided(rule, "a caveat that does not hold refuses the token", "no expiry or user test was recognised in verifyCaveats")
+	}
+}
+
+// c20EveryTimeCaveat: the judgement of a time caveat against the clock is made once per caveat.
+// Positive evidence of a violation: the only comparison with the clock sits after the loop over
+// the caveats and is given a variable that each time caveat simply overwrites (no minimum, no
+// comparison with the value kept so far): only the last `time <` caveat is then enforced, and
+// whoever holds a token may append one.
+func c20EveryTimeCaveat(c *fw.Ctx) {
+	rule := "7 failing-caveat"
+	construct := "every time caveat is judged against the clock"
+	vc := mustFunc(c, rule, "tokens.verifyCaveats")
+	entry := c.P.Func("tokens.ValidateToken")
+	if vc == nil || entry == nil {
+		return
+	}
+	clock := fw.FlowSpec{IsSource: fw.IsResultOf(fw.NameIs("time.Now"), -1), Through: fw.ThroughNames(map[string][]int{"(time.Time).Unix": {0}})}
+	n, inLoop, verdict, detail, pos := 0, 0, "", "", ""
+	for _, di := range fw.DeepInstrs(entry, nil) {
+		bo, ok := di.Instr.(*ssa.BinOp)
+		if !ok || (bo.Op != token.LSS && bo.Op != token.LEQ && bo.Op != token.GTR && bo.Op != token.GEQ) {
+			continue
+		}
+		var other ssa.Value
+		switch {
+		case fw.Derives3In(bo.X, di.Fr, clock) == fw.Yes:
+			other = bo.Y
+		case fw.Derives3In(bo.Y, di.Fr, clock) == fw.Yes:
+			other = bo.X
+		default:
+			continue
+		}
+		// the step of verifyCaveats through which the comparison is reached
+		var at ssa.Instruction
+		var atFr *fw.Frame
+		if bo.Parent() == vc {
+			at, atFr = bo, di.Fr
+		}
+		for f := di.Fr; f != nil && at == nil; f = f.Parent {
+			if f.Site != nil && f.Site.Parent() == vc {
+				at, atFr = f.Site, f.Parent
+			}
+		}
+		if at == nil {
+			continue
+		}
+		_ = atFr
+		n++
+		if h, _ := fw.LoopOf(at.Block()); h != nil {
+			inLoop++
+			continue
+		}
+		// outside the loop: what is compared with the clock?
+		v, vfr := rootOf(other, di.Fr)
+		_ = vfr
+		phi, isPhi := v.(*ssa.Phi)
+		if !isPhi || phi.Parent() != vc {
+			if verdict == "" {
+				verdict, detail = "undecided", "the clock is compared outside the caveat loop with "+fw.Sig(v)
+			}
+			continue
+		}
+		// is the kept value ever combined with a new one (a minimum)?
+		family := map[ssa.Value]bool{phi: true}
+		for changed := true; changed; {
+			changed = false
+			for _, b := range vc.Blocks {
+				for _, ins := range b.Instrs {
+					if p, isP := ins.(*ssa.Phi); isP && !family[p] {
+						for _, e := range p.Edges {
+							if family[e] {
+								family[p], changed = true, true
+							}
+						}
+					}
+				}
+			}
+		}
+		combined := false
+		for _, b := range vc.Blocks {
+			for _, ins := range b.Instrs {
+				switch x := ins.(type) {
+				case *ssa.BinOp:
+					if x != bo && (family[x.X] || family[x.Y]) {
+						combined = true
+					}
+				case *ssa.Call:
+					if x == at {
+						continue
+					}
+					for _, a := range x.Call.Args {
+						if family[a] {
+							combined = true
+						}
+					}
+				}
+			}
+		}
+		if combined {
+			verdict, detail = "undecided", "the clock is compared after the caveat loop with a value that is combined with the one kept so far"
+		} else {
+			verdict, detail, pos = "fail", "the clock is compared once, after the loop over the caveats, with a variable that every time caveat overwrites: only the last time caveat is enforced, and a holder of the token can append one", c.P.Pos(fw.InstrPos(at))
+		}
+	}
+	switch {
+	case verdict == "fail":
+		c.Fail(rule, construct, pos, detail)
+	case n == 0:
+		c.Undecided(rule, construct, "no comparison with the clock was found in the region of verifyCaveats")
+	case verdict == "undecided" && inLoop == 0:
+		c.Undecided(rule, construct, detail)
+	default:
+		c.Ok(rule, construct, c.P.Pos(vc.Pos()), fmt.Sprintf("%d clock comparison(s) inside the caveat loop", inLoop))
 	}
 }
